@@ -72,8 +72,8 @@ class Setup:
         self.ref_bytes = {p: (self.icf / p).read_bytes() for p, h in self.reference.items() if h != "dir"}
         # contents of files that exist only during the protocol (wip): take them from a second reference pass
         self.wip_bytes = {}
-        store = vcf2zarr.IntermediateColumnarFormat(self.icf)
-        self.ref_values = {name: [repr(v) for v in f.values] for name, f in store.fields.items()}
+        self.vcf2zarr = vcf2zarr
+        self.ref_values = try_load(self)[1]
         # classification tables
         self.shared = []        # k-th effective mkdir of init after '.' and 'wip'
         for ev_, eff in protolib.effective_events(self.traces["init"], set()):
@@ -240,9 +240,13 @@ def run_history(ctx, su, history, label):
                         inp, "reference values", "different / unreadable")
             return False
         if cmd[0] == "finalise" and res == "completed":
-            done = set()
-            for c2, k2, _ in history[:idx]:
-                pass
+            # a finalise that reports completion must leave exactly the store of an uninterrupted run
+            snap = protolib.snapshot(su.icf)
+            if snap != su.reference:
+                bad = sorted(k for k in set(snap) | set(su.reference) if snap.get(k) != su.reference.get(k))[:6]
+                ctx.violate(f"after {inp['history'][:idx+1]} finalise reported completion but the store differs from an "
+                            f"uninterrupted run in {bad}" + ("" if loads else " (and does not load)"), inp, "identical tree", bad)
+                return False
     return not diverged
 
 
@@ -253,6 +257,10 @@ def try_load(su):
         return False, None
     vals = {}
     try:
+        vals["<vcf_header>"] = store.vcf_header
+        vals["<samples>"] = [x.id for x in store.metadata.samples]
+        vals["<contigs>"] = [(x.id, x.length) for x in store.metadata.contigs]
+        vals["<num_records>"] = store.num_records
         for name, f in store.fields.items():
             vals[name] = [repr(v) for v in f.values]
     except Exception as e:  # noqa: BLE001
